@@ -177,7 +177,14 @@ pub fn inverse_gamma_lr_impl(a: f64, p: f64, max_n_iter: usize, epsilon_toleranc
         }
 
         let err = if p <= 0.5 {
-            gamma_lr(a, x_n) - p
+            // statrs' gamma_lr returns exactly 0 for arguments below ~1e-15, which leaves the
+            // iteration without a signal when the quantile itself is that small (shape < 0.4);
+            // there the leading terms of the series are exact to double precision.
+            if x_n < 1.0e-14 {
+                x_n.powf(a) * (-x_n).exp() / (a * gamma_a) * (1.0 + x_n / (a + 1.0)) - p
+            } else {
+                gamma_lr(a, x_n) - p
+            }
         } else {
             -(gamma_ur(a, x_n) - q)
         };
